@@ -501,7 +501,7 @@ def asm_message_sets(quick):
 def w_asm(arg):
     proto, sets, depth = arg
     st = core.Stats('asm_' + proto)
-    mk = F.avdtp_messages if proto == 'avdtp' else F.avctp_messages
+    mk = {'avdtp': F.avdtp_messages, 'avctp': F.avctp_messages, 'avctp_pid': F.avctp_pid_messages}[proto]
     impl_states, impl_edges = set(), set()
     for lengths in sets:
         msgs = mk(lengths, ASM_MTU)
@@ -938,7 +938,17 @@ def run(ctx: core.Context) -> int:
     if want('asm'):
         depth = 7 if quick else 9
         states = trans = 0
-        for proto in ('avdtp', 'avctp'):
+        protos = ['avdtp', 'avctp']
+        # The fragment-SEQUENCE logic of the AVCTP assembler (a broken sequence costs only its own message) is also
+        # searched in the fragment layout the assembler reassembles at all, when that is not the specification's layout
+        # (known finding asm_intact_lost/avctp: today it expects the profile identifier in every packet): otherwise no
+        # fragmented message is ever delivered and that logic would be invisible.  When the assembler accepts the
+        # specification's layout this extra search is skipped, so repairing the finding cannot raise an alarm here.
+        layout = F.avctp_layout_accepted()
+        ctx.log('avctp fragment layout reassembled by the assembler:', layout)
+        if layout == 'pid_everywhere':
+            protos.append('avctp_pid')
+        for proto in protos:
             sets = asm_message_sets(quick)
             items = [(proto, part, depth) for part in core.split(sets, jobs * 2)]
             st = ctx.sub('asm_' + proto)
@@ -951,8 +961,7 @@ def run(ctx: core.Context) -> int:
             'states': states,
             'transitions': trans,
             'traces_validated_against_impl': ctx.sub('asm_avdtp').evaluations + ctx.sub('asm_avctp').evaluations,
-            'state_definition': 'real MessageAssembler attribute tuple (AVDTP: label, message, type, signal, packets announced, packet_count; '
-                                'AVCTP: packets_received, label, pid, c_r, ipid, payload, number_of_packets) per message set; a search state adds the '
+            'state_definition': 'every data attribute of the real MessageAssembler (vars()) per message set; a search state adds the '
                                 'intact-run progress and the four reference-policy assembler states',
             'assembler_depth': depth,
         })
@@ -1042,7 +1051,7 @@ def replay(v: core.Violation):
     msgs = []
     if v.check.startswith('asm_'):
         proto, lengths = c['proto'], tuple(c['lengths'])
-        mk = F.avdtp_messages if proto == 'avdtp' else F.avctp_messages
+        mk = {'avdtp': F.avdtp_messages, 'avctp': F.avctp_messages, 'avctp_pid': F.avctp_pid_messages}[proto]
         ms = mk(lengths, ASM_MTU)
         r = F.bfs(proto, ms, len(c['tokens']))
         want = jkey({k: x for k, x in v.signature.items() if k != 'check'})
